@@ -29,7 +29,7 @@ func TestMain(m *testing.M) {
 	vstat.Main(m)
 }
 
-var accountKinds = []string{"transfer", "transfer", "token", "call-revert", "call-forward", "call-fwdrevert", "call-suicide", "call-issue", "create", "prefund-create"}
+var accountKinds = []string{"transfer", "transfer", "token", "call-revert", "call-forward", "call-fwdrevert", "call-killrevert", "pay-suicider", "call-suicide", "call-issue", "create", "prefund-create"}
 
 // checkSupply is the conservation oracle: for the native coin and every token, everything held by accounts
 // plus the generator-known value of unspent confidential outputs equals the genesis supply plus what token
@@ -71,12 +71,15 @@ func checkSupply(t *rapid.T, s *chainsim.Sim, when string) {
 		vstat.Violation(t, P, "harness:universe-incomplete", "%s: state has accounts outside the generator's universe: %v", when, out)
 	}
 	st := s.Committed()
-	for _, name := range []string{"reverter", "fwdrevert"} {
+	for _, name := range []string{"reverter", "fwdrevert", "killrevert"} {
 		if c, ok := s.Contracts[name]; ok && st.GetBalance(c).Sign() != 0 {
 			vstat.Violation(t, P, "failed-call-kept-value", "%s: contract %s, whose every call fails, holds %v", when, name, st.GetBalance(c))
 		}
 	}
 }
+
+// keyBurnt: a payment to a contract that self-destructed in an EARLIER transaction of the same block is destroyed at the end of the block.
+const keyBurnt = "payment-to-contract-self-destructed-earlier-in-block-is-destroyed"
 
 func TestConservationChain(t *testing.T) {
 	rapid.Check(t, func(t *rapid.T) {
@@ -86,7 +89,7 @@ func TestConservationChain(t *testing.T) {
 		checkSupply(t, s, "genesis")
 		nblocks := rapid.IntRange(1, 6).Draw(t, "nblocks")
 		kindsSeen := map[string]bool{}
-		crossings, failedWithValue := 0, 0
+		crossings, failedWithValue, burnt := 0, 0, 0
 		var hist []string
 		for b := 0; b < nblocks; b++ {
 			ntx := rapid.IntRange(0, 6).Draw(t, "ntx")
@@ -125,10 +128,13 @@ func TestConservationChain(t *testing.T) {
 					gen[g.Tx.Hash()] = g
 					kindsSeen[g.Kind] = true
 					vstat.Label("admitted_" + g.Kind)
+					if g.InnerTo != "" {
+						vstat.Label("admitted_" + g.Kind + "_reaching_" + g.InnerTo)
+					}
 					if g.Kind == "a2u" || g.Kind == "u2a" || g.Kind == "u2mix" {
 						crossings++
 					}
-					if (g.Kind == "call-revert" || g.Kind == "call-fwdrevert") && g.Tx.(*types.Transaction).Value().Sign() > 0 {
+					if (g.Kind == "call-revert" || g.Kind == "call-fwdrevert" || g.Kind == "call-killrevert") && g.Tx.(*types.Transaction).Value().Sign() > 0 {
 						failedWithValue++
 					}
 				} else {
@@ -163,7 +169,8 @@ func TestConservationChain(t *testing.T) {
 			vstat.LabelN("committed_txs", len(blk.Data.Txs))
 			// exactness of a lone plain transfer: sender pays amount+fee, recipient gets amount, collector gets the fee
 			if len(blk.Data.Txs) == 1 {
-				if tx, ok := blk.Data.Txs[0].(*types.Transaction); ok && tx.To() != nil && len(tx.Data()) == 0 {
+				// (only the generator's plain transfers: they carry exactly the legal gas limit and go to addresses without code)
+				if tx, ok := blk.Data.Txs[0].(*types.Transaction); ok && tx.To() != nil && len(tx.Data()) == 0 && gen[tx.Hash()] != nil && gen[tx.Hash()].Kind == "transfer" {
 					post := s.Committed()
 					from, _ := tx.From()
 					fee := new(big.Int).Mul(new(big.Int).SetUint64(tx.Gas()), tx.GasPrice())
@@ -181,6 +188,14 @@ func TestConservationChain(t *testing.T) {
 					}
 					vstat.Label("lone_transfer_checked")
 				}
+			}
+			if n := len(s.BurntAfterKill); n > burnt {
+				// known finding (the books above already count the amount as destroyed, so anything else still shows)
+				if vstat.Violation(t, P, keyBurnt, "%s; log:\n%s", strings.Join(s.BurntAfterKill[burnt:], "; "), strings.Join(s.Log, "\n")) {
+					return
+				}
+				burnt = n
+				vstat.Label("known_payment_after_self_destruct_in_block")
 			}
 			checkSupply(t, s, fmt.Sprintf("after block %d", blk.Height))
 		}
